@@ -101,3 +101,97 @@ Fixpoint ins_sorted (x : json) (l : list json) : list json :=
               | _ => x :: l end
   end.
 Definition sort_json (l : list json) : list json := fold_right ins_sorted [] l.
+
+(* generic decision: oracle on the implementation first, then model = implementation, then oracle on the model *)
+Definition decide (P : json -> option string) (impl model : json) (nontrivial : bool) (what : string) : verdict :=
+  match P impl with
+  | Some why => VPropFail (what ++ ": " ++ why ++ " [model: " ++ obs_class model ++ "]")
+  | None =>
+      if json_eqb impl model then
+        match P model with None => VOk nontrivial | Some why => VBad ("oracle fails on the model: " ++ why) end
+      else VMismatch (what ++ ": impl " ++ obs_class impl ++ ", model " ++ obs_class model)
+  end.
+
+(* first non-ok verdict wins, propfail before mismatch before badcase *)
+Definition rank (v : verdict) : nat :=
+  match v with VPropFail _ => 0 | VMismatch _ => 1 | VBad _ => 2 | VOk _ => 3 end.
+Definition worst (a b : verdict) : verdict :=
+  match a, b with
+  | VOk x, VOk y => VOk (x || y)
+  | _, _ => if Nat.leb (rank a) (rank b) then a else b end.
+
+
+(* the expectation carried by a case: claims in the clear, marked paths, which disclosures are presented *)
+Definition expected_claims (e : json) : json :=
+  let marks := map tpath_of_json (jlist (jget "marks" e)) in
+  let present := map jbool (jlist (jget "present" e)) in
+  let hidden := flat_map (fun mp : tpath * bool => if snd mp then [] else [fst mp]) (combine marks present) in
+  prune (jget "claims" e) hidden.
+
+(* C03, adversarial lists: the claims are the original ones with some marked nodes absent - at least
+   those whose disclosure is not presented *)
+Definition sound_claims (e : json) (v : json) : bool :=
+  let marks := map tpath_of_json (jlist (jget "marks" e)) in
+  let present := map jbool (jlist (jget "present" e)) in
+  let mp := combine marks present in
+  let must := flat_map (fun q : tpath * bool => if snd q then [] else [fst q]) mp in
+  let may := flat_map (fun q : tpath * bool => if snd q then [fst q] else []) mp in
+  sub_project (jget "claims" e) v must may.
+
+Definition expected_paths (e : json) : json :=
+  let marks := map tpath_of_json (jlist (jget "marks" e)) in
+  let present := map jbool (jlist (jget "present" e)) in
+  let mp := combine marks present in
+  let revealed (m : tpath) : bool :=
+    forallb (fun q : tpath * bool => negb (is_prefix (fst q) m) || snd q) mp in
+  let triples := jlist (jget "paths" e) in
+  JArr (sort_json (flat_map (fun mt : tpath * json => if revealed (fst mt) then [snd mt] else []) (combine marks triples))).
+
+(* disclosure strings of the marks that are presented and reachable, sorted *)
+Definition expected_strings (e : json) : json :=
+  let marks := map tpath_of_json (jlist (jget "marks" e)) in
+  let present := map jbool (jlist (jget "present" e)) in
+  let mp := combine marks present in
+  let revealed (m : tpath) : bool :=
+    forallb (fun q : tpath * bool => negb (is_prefix (fst q) m) || snd q) mp in
+  JArr (sort_json (flat_map (fun mt : tpath * json => if revealed (fst mt) then [snd mt] else []) (combine marks (jlist (jget "strings" e))))).
+
+(* oracle for the string built by the holder: its disclosures are exactly the presented reachable ones *)
+Definition presentation_oracle (e : json) (mode : string) (o : json) : option string :=
+  if obs_is "panic" o then Some "panics"
+  else if String.eqb mode "none" then None
+  else if obs_is "err" o then (if String.eqb mode "accept" then Some "rejected, must be accepted" else None)
+  else if String.eqb mode "reject" then Some "accepted, must be rejected"
+  else if negb (String.eqb mode "accept") then None
+  else match obs_val o with
+       | JStr s => let '(_, ds, kb) := sd_jwt_parts s in
+                   if json_eqb (JArr (sort_json (map JStr ds))) (expected_strings e) then None
+                   else Some "the holder's presentation does not carry exactly the reachable presented disclosures"
+       | _ => Some "unreadable outcome" end.
+
+Definition mode_of (e : json) (which : string) : string :=
+  match jget which e with JStr m => m | _ => jstr_or_empty (jget "mode" e) end.
+
+(* [pick] selects the claims (and optionally the paths) out of an Ok observation *)
+Definition expect_oracle (e : json) (mode : string) (claims_at paths_at : option nat) (o : json) : option string :=
+  if obs_is "panic" o then Some "panics"
+  else if String.eqb mode "none" then None
+  else if obs_is "err" o then
+    (if String.eqb mode "accept" then Some "rejected, must be accepted" else None)
+  else if negb (obs_is "ok" o) then Some "unreadable outcome"
+  else if String.eqb mode "reject" then Some "accepted, must be rejected"
+  else
+    let v := jlist (obs_val o) in
+    let claims_ok := match claims_at with
+                     | Some i => if String.eqb mode "accept" then json_eqb (nth i v JNull) (expected_claims e)
+                                 else sound_claims e (nth i v JNull)
+                     | None => true end in
+    (* the path list is part of the expectation only where the property speaks about it: duplicate-free
+       lists that must be accepted (C01, C02, C08); for adversarial lists only the claims are judged *)
+    let paths_ok := match paths_at with
+                    | Some i => negb (String.eqb mode "accept") || json_eqb (nth i v JNull) (expected_paths e)
+                    | None => true end in
+    if negb claims_ok then Some "claims differ from the original claims minus the withheld ones"
+    else if negb paths_ok then Some "disclosure paths differ from the marked paths that were presented"
+    else None.
+
